@@ -53,6 +53,9 @@ func c04Events(p c04Params) []string {
 	// a backend that accepts and never answers in time: the failure arrives as a timeout error;
 	// and one whose 500 follows an interim response (103 Early Hints): a failed response all the same
 	ev = append(ev, "flip-timeout:b0", "flip-103+500:b0")
+	// a backend whose failing answers take 11 s: the unhealthy window starts when the failure is
+	// known, not when the request was sent
+	ev = append(ev, "flip-slow+500:b0")
 	if vres.Thorough() {
 		ev = append(ev, "flip-refuse:b0", "flip-garbage:b0")
 	}
@@ -188,7 +191,7 @@ func (in *c04Inst) Step(ev int) *vh.HViol {
 		bad := e[len("flip-"):strings.Index(e, ":")]
 		st := in.k.stub(e[strings.Index(e, ":")+1:])
 		if st.mode == "ok" {
-			st.mode, st.probeMode = bad, strings.TrimPrefix(bad, "103+")
+			st.mode, st.probeMode = bad, strings.TrimPrefix(strings.TrimPrefix(bad, "103+"), "slow+")
 		} else {
 			st.mode, st.probeMode = "ok", "ok"
 		}
